@@ -10,6 +10,7 @@ for p in "$@"; do
   /verif/bin/rtcheck -property $p -tier quick -repo $d -no-evidence > $d/.out 2>&1; r=$?
   if [ $r -eq 1 ]; then echo "  $p: DETECTED"; grep -A2 '  FAILED' $d/.out | grep -v '^--' | head -${LINES_MAX:-9}; 
   elif [ $r -eq 0 ]; then echo "  $p: missed"; rc=1;
+  elif grep -q "^UNDECIDED property=" $d/.out; then echo "  $p: undecided"; grep -A2 '  UNRECOGNISED' $d/.out | grep -v '^--' | head -6; rc=1;
   else echo "  $p: TOOL ERROR"; tail -5 $d/.out; rc=2; fi
 done
 rm -rf $d
